@@ -44,14 +44,17 @@ Proof. exact waits_grow_and_cap. Qed.
 Print Assumptions C19_waits_grow_and_cap.
 
 (* the waits are non-decreasing in the number of consecutive failures, lie in [Min, Max], double
-   while below Max and stay at Max once it is reached *)
+   while below Max, ARE Max as soon as Min*2^j >= Max and stay at Max for every longer run of
+   failures (integers are unbounded here: there is no j at which the product wraps) *)
 Theorem C19_waits_monotone_bounded :
   forall c, good_cfg c ->
     (forall j k, (j <= k)%nat -> wait_after c j <= wait_after c k) /\
     (forall j, cmin c <= wait_after c (S j) <= cmax c) /\
     wait_after c 1 = cmin c /\
     (forall j, cmin c * 2 ^ Z.of_nat j <= cmax c -> wait_after c (S j) = cmin c * 2 ^ Z.of_nat j) /\
-    (forall j, (Z.to_nat (Z.log2_up (cmax c)) <= j)%nat -> wait_after c (S j) = cmax c).
+    (forall j, (Z.to_nat (Z.log2_up (cmax c)) <= j)%nat -> wait_after c (S j) = cmax c) /\
+    (forall j, cmax c <= cmin c * 2 ^ Z.of_nat j -> wait_after c (S j) = cmax c) /\
+    (forall j k, (j <= k)%nat -> wait_after c (S j) = cmax c -> wait_after c (S k) = cmax c).
 Proof. exact waits_monotone_bounded. Qed.
 Print Assumptions C19_waits_monotone_bounded.
 
@@ -184,6 +187,8 @@ Example C19_witness :
   map ev_out (client LPlain c [(AOk, Down); (AOk, AcceptThenHang 2); (AOk, Down)] None) = [OWsFail; OConnected 2] /\
   map ev_out (client LPlain c [(AOk, Down); (AOk, AcceptThenHang 2); (AOk, Down)] (Some (1%nat, CConn 2))) = [OWsFail; OConnected 2] /\
   reaches_close false [DSendClose; DAwaitPeer; DCloseConn] = false /\
+  ev_wait (last (client LAuth (mkcfg 1000000 50000000 2) (repeat (AHttp5xx, Down) 2000) None) (mkev 0 OWsFail)) = 50000000 /\
+  map ev_out (client LPlain c [(AOk, Refuse); (AOk, AcceptThenStay 150); (AOk, Down)] (Some (1%nat, CConn 150))) = [OWsFail; OConnected 150] /\
   map ev_wait (client LPlain c [(AOk, Down); (AOk, Down); (AOk, Down); (AOk, AcceptThenDropW 1); (AOk, Down); (AOk, Down)] None) =
     [0; 40000000; 80000000; 160000000; 0; 40000000] /\
   fresh LAuth (firstn 6 sch) /\
